@@ -5,6 +5,30 @@ checks = {
  "C01": dict(level="exploration", technique="differential runtime monitor: byte-equality oracle over corpus + seeded comment mutations, 5 entry points",
    text="Runs the real decorate/restore/print pipeline through all five public entry points on every gofmt-canonical file of the toolchain source tree (quick: stratified sample) and on seeded comment/blank-line mutations of them, comparing the printed bytes with the input. Holds only on the inputs executed; witnesses are reduced and classified by dst-independent syntactic predicates so known findings never mask a new root cause.",
    note="trusts go/format (go1.23.5) as the definition of gofmt-canonical; corpus = GOROOT/src + /repo; generated inputs on which gofmt is not idempotent are inconclusive", ref="5/C01"),
+ "C02": dict(level="exploration", technique="model-based history checking: text-chunk edit model + go/format vs dst list edits with Clone",
+   text="Generates commented sibling lists of all 9 kinds (two lists per file), cuts the chunks from the gofmt-canonical text, applies the same seeded edit history (swap, rotate, reverse, delete, duplicate via Clone, move between lists) to the chunk lists and to the dst node slices, and requires print(dst) == gofmt(edited text).",
+   note="only uniform layouts (decided from the text and gofmt) are in the domain; gofmt-non-idempotent texts are inconclusive", ref="5/C02"),
+ "C04": dict(level="exploration", technique="online exactly-once monitor on the restorer's Dec hook + placement/order assertions on restored positions + accessor reflection monitor",
+   text="Decorates every attachment point (found by reflection) of corpus trees with unique comments, all at once and one site at a time; checks exactly-once in the hook log and in the print, unchanged token stream, placement of Start/End/named points relative to the restored positions of the tokens and children they are named for, order within a node, dstutil.Decorations / Node.Decorations() against the node's own storage, and the round trip of gofmt-stable decorated output.",
+   note="placement is asserted on restored ast positions; points without a token/child referent are order-only", ref="5/C04"),
+ "C05": dict(level="exploration", technique="reference-model monitor, exhaustive over all Before/After assignments for n<=3 (n<=4 thorough) x 6 list kinds x 6 comment patterns",
+   text="Enumerates every assignment of None/NewLine/EmptyLine to Before and After of up to 3 (thorough 4) list elements for six list kinds and six Start/End line-comment / newline patterns, prints, and compares the blank-line skeleton read with go/scanner against the model written from the statement (max-combination, fresh-line reduction, explicit newlines, edge blank lines where gofmt keeps them).",
+   note="which list kinds keep edge blank lines is calibrated at run time by asking gofmt on plain text", ref="5/C05"),
+ "C07": dict(level="exploration", technique="independent import-table oracle over re-parsed output for seeded import configurations",
+   text="Builds files with seeded import-block shapes, references (each uniquely named), alias overrides and resolvers, restores with import management and checks reference binding, exact import set, distinct names, alias precedence, untouched sections and determinism on the re-parsed output.",
+   note="precedence asserted only when preferred names do not collide", ref="5/C07"),
+ "C08": dict(level="exploration", technique="byte-equality + path-sequence oracle with independently derived package names; go/types (source importer) for the types-based resolver",
+   text="Decorates canonical corpus files with goast (exact map) and gotypes (std packages type-checked from source), restores with import management through exact-name resolvers, requires byte identity and the same (Name, Path) sequence after re-decorating; includes comment/line-break mutations around the dot of qualified identifiers and in import specs.",
+   note="package names come from package clauses under GOROOT/src / go/types; files failing plain round trip are classified like C01", ref="5/C08"),
+ "C09": dict(level="exploration", technique="differential classification of every identifier against go/types; goast vs gotypes agreement inside goast's domain",
+   text="For std packages type-checked from source and generated multi-package programs, computes from go/types alone which identifiers denote package-level objects of other packages (vendor prefix stripped by the oracle's own code) and compares with Ident.Path; goast must agree on dot-import-free files and must return an error where it cannot decide.",
+   note="go/types is the reference", ref="5/C09"),
+ "C10": dict(level="exploration", technique="go/types before/after oracle over seeded move histories in generated multi-package programs",
+   text="Moves declarations between files of one package and into a different package (ResolveLocalPath), restores the targets with import management (with and without alias overrides), re-type-checks and compares what every identifier of the moved code denotes.",
+   note="the statement's proviso (no shadowing of chosen import names, no unexported references across packages) holds by construction of the generator", ref="5/C10"),
+ "C18": dict(level="exploration", technique="graph-isomorphism monitor on object/scope graphs (first-occurrence labelling) + differential against go/ast.NewPackage",
+   text="Compares the parser's identifier-resolution graph with the decorated and the Extras-restored graphs (sharing partition, kind, name, data, declaration links through the node maps, file scopes) and dst.NewPackage with ast.NewPackage (nil importer and mirrored fake importer/universe) on real and generated multi-file packages.",
+   note="for redeclared names only presence is compared (winner depends on map order in go/ast too)", ref="5/C18"),
  "C03": dict(level="exploration", technique="differential runtime monitor: go/scanner token + comment streams of dst output vs go/format output over formatting transforms",
    text="Pushes corpus files through nine formatting transforms (CRLF, BOM, spaces, no indentation, trailing whitespace, doubled/removed/whitespace-only blank lines) and raw comment insertions, and compares the scanner token sequence and the comment sequence of dst's output with gofmt's; root cause of a violation is established by re-running on the line-ending-normalised input.",
    note="go/format is the reference; cases where gofmt itself rewrites comment text or is not idempotent are inconclusive", ref="5/C03"),
